@@ -9,6 +9,7 @@ import (
 
 	"github.com/jcmturner/gofork/encoding/asn1"
 	"github.com/jcmturner/gokrb5/v8/asn1tools"
+	"github.com/jcmturner/gokrb5/v8/config"
 	"github.com/jcmturner/gokrb5/v8/kadmin"
 	"github.com/jcmturner/gokrb5/v8/messages"
 	"github.com/jcmturner/gokrb5/v8/spnego"
@@ -300,8 +301,54 @@ func TestC13(t *testing.T) {
 	c13Lengths(m, v, rng)
 	c13Flags(m, v)
 	c13RealDecrypt(t, m, v, rng)
+	c13Constructed(m, v)
 	v.ModelAsks = m.N
 	v.Write(t)
+}
+
+// c13Constructed: messages built by the library's constructors (which stamp the current time) in a process
+// whose local time zone is not UTC: what they encode is read by the independent decoder (KerberosTime is
+// "YYYYMMDDHHMMSSZ", RFC 4120 5.2.3) as the values the object holds.
+func c13Constructed(m *Model, v *Verdict) {
+	saved := time.Local
+	time.Local = time.FixedZone("VERIF+0530", 5*3600+1800)
+	defer func() { time.Local = saved }()
+	byName := map[string]asn1Type{}
+	for _, ty := range asn1Types() {
+		byName[ty.name] = ty
+	}
+	cname := types.PrincipalName{NameType: 1, NameString: []string{"user"}}
+	sname := types.PrincipalName{NameType: 2, NameString: []string{"HTTP", "host.example.com"}}
+	check := func(name string, val interface{}) {
+		ty, ok := byName[name]
+		if !ok {
+			return
+		}
+		text := ty.render(val)
+		b, err := ty.marshal(val)
+		v.Case("constructed/"+name, name+" from its constructor, local zone +05:30")
+		det := map[string]string{"type": name, "value": text, "bytes": X(b)}
+		if err != nil {
+			v.Violate("failing-input", "c13:constructed:marshal:"+name, "Marshal of a constructed message failed: "+err.Error(), det)
+			return
+		}
+		if dec := m.Ask(fmt.Sprintf("asn1.dec %s %s", name, X(b))); dec != "ok "+text {
+			det["rfc-decoder"] = dec
+			v.Violate("failing-input", "c13:constructed:rfc-decode:"+name, "an independent decoder of the RFC ASN.1 type does not read the values of a message the library constructed (local time zone not UTC)", det)
+		}
+	}
+	e := messages.NewKRBError(sname, "EXAMPLE.COM", 6, "text")
+	check("KRBError", &e)
+	if a, err := types.NewAuthenticator("EXAMPLE.COM", cname); err == nil {
+		check("Authenticator", &a)
+	}
+	if cfg, err := config.NewFromString("[libdefaults]\n default_realm = EXAMPLE.COM\n"); err == nil {
+		if r, err := messages.NewASReqForTGT("EXAMPLE.COM", cfg, cname); err == nil {
+			check("ASReq", &r)
+		}
+	}
+	kp := messages.NewKRBPriv(messages.EncKrbPrivPart{UserData: []byte{1}, Timestamp: time.Now(), SAddress: types.HostAddress{AddrType: 2, Address: []byte{1, 2, 3, 4}}})
+	_ = kp
 }
 
 func optPattern(text string) string {
@@ -434,6 +481,12 @@ func c13RealDecrypt(t *testing.T, m *Model, v *Verdict, rng *RNG) {
 	for _, et := range allEtypes {
 		for k := 0; k < 3; k++ {
 			c := baseCase(et)
+			if k == 1 {
+				// a ticket that names no key version (the newest key opens it): nothing may be written into it
+				if _, newest, e := kt.GetEncryptionKey(types.PrincipalName{NameString: c.sname}, c.realm, 0, et); e == nil {
+					c.kvno, c.tktKvno = newest, 0
+				}
+			}
 			ap0, b, err := mintAPReqKey(m, rng, c, time.Now())
 			if err != nil {
 				v.Note("c13 real decrypt: not minted: " + err.Error())
